@@ -199,6 +199,9 @@ class ClipSim:
                # xarray's global LRU of open file handles: with a tiny cache every lazy read re-opens its file by path
                'file_cache_maxsize': rng.choice([1, 2, 128, 128])}
         env['penv'] = seams.gen_process_env(rng)
+        if rng.random() < (0.015 if not big else 0.006):
+            # every lifetime of this plan is the main program of a fresh interpreter: another hash seed, sometimes -O
+            env['fresh'] = {'flags': rng.choice([['-O'], ['-O'], []]), 'hashseed': rng.randrange(1, 100000)}
         nw = n_writes(world)
         lts = []
         masks, results = [], []
@@ -348,6 +351,20 @@ class ClipSim:
         return {'engine': self.name, 'world': world, 'env': env, 'lifetimes': lts}
 
     def shrink(self, plan):
+        env_ = plan.get('env') or {}
+        if env_.get('fresh'):
+            p = copy.deepcopy(plan)
+            p['env'].pop('fresh')
+            yield p
+            if env_['fresh']['flags']:
+                p = copy.deepcopy(plan)
+                p['env']['fresh']['flags'] = []
+                yield p
+        for key_, off_ in (('logging_debug', False), ('tmpdir_other_fs', False), ('keep_attrs', 'default')):
+            if (env_.get('penv') or {}).get(key_, off_) != off_:
+                p = copy.deepcopy(plan)
+                p['env']['penv'][key_] = off_
+                yield p
         if len(plan['lifetimes']) > 1:
             for k in reversed(range(len(plan['lifetimes']))):
                 p = copy.deepcopy(plan)
@@ -419,7 +436,13 @@ class ClipSim:
         judged = {'C08': False, 'C09': False}
         sig_lts = []
         for li, lt in enumerate(plan['lifetimes']):
-            res = lifetimes.run_lifetime(_clip_lifetime, plan, li, scratch, sorted(model['files']), timeout=180)
+            fresh = (plan.get('env') or {}).get('fresh')
+            if fresh:
+                res = lifetimes.run_lifetime_fresh('engines.clipsim', '_clip_lifetime', (plan, li, scratch, sorted(model['files'])), scratch,
+                                                   flags=fresh['flags'], env={'PYTHONHASHSEED': str(fresh['hashseed'])}, timeout=240)
+                out.stats['probe.lifetime_in_fresh_interpreter' + ('_optimised' if '-O' in fresh['flags'] else '')] += 1
+            else:
+                res = lifetimes.run_lifetime(_clip_lifetime, plan, li, scratch, sorted(model['files']), timeout=180)
             if res['status'] in ('harness_error', 'timeout'):
                 out.harness_error = f'lifetime {li}: {res["error"]}'
                 return
